@@ -116,7 +116,11 @@ def correspondence(ctx):
     skipped = 0
     def take(c, obs, origin):
         nonlocal skipped
-        if c.get("malformed"):
+        if c.get("repeat"):
+            res.count("repeated-measurement points" + (" (x too)" if c["repeat"].get("x") else ""))
+        single = origin is c
+        c = obs.get("eff_case", c)
+        if c.get("malformed") or c.get("large_x"):
             return
         if obs.get("exn_type") == "RuntimeError":
             skipped += 1
@@ -131,7 +135,7 @@ def correspondence(ctx):
             return
         res.evaluations += 1
         res.count("model:" + c["model"] + (":deg{}".format(c["deg"]) if c["model"] == "polynomial" else ""))
-        res.count("mode:" + (c["mode"] if origin is c else "multi" if origin["kind"] == "multi" else "history:" + origin["holder"]))
+        res.count("mode:" + (c["mode"] if single else "multi" if origin["kind"] == "multi" else "history:" + origin["holder"]))
         res.count("xrange:" + ("pair" if isinstance(c["xrange"], list) else "whole"))
         res.count("yerr:" + ("none" if c["yerr"] is None else "per-point" if isinstance(c["yerr"], list) else "common")
                   + (":zeros-outside-range" if c.get("pattern") else ""))
@@ -294,9 +298,10 @@ def check_oracle(case, obs=None):
     if not fc.in_domain(case):
         return None
     obs = obs or fc.run_case(case, observe_result=True)
+    case = obs.get("eff_case", case)
     if case.get("malformed"):
         return None           # rejected requests are C06's business; here they only sit between the fits of a history
-    if obs.get("exn_type") == "RuntimeError":
+    if obs.get("exn_type") == "RuntimeError" or fc.numerically_lost(case, obs):
         return None
     if obs["exn"] is not None:
         part = obs.get("partial")
@@ -360,6 +365,22 @@ def check_oracle(case, obs=None):
         if not close(r["band"][i], want, 5e-6 * max(1.0, terms / var)):
             return ("uncertainty of fit_function({}) is {!r}; sqrt(g^T Cov g) with the gradient of the {} model at the returned "
                     "parameters is {!r}".format(x, r["band"][i], model, want))
+    # the residuals as quantities: the uncertainty of y_i - fit_function(x_i) carries sigma_y, the x-uncertainty along the
+    # curve and the parameters' covariance: sigma_y^2 + (f'(x_i) sigma_x)^2 + g^T Cov g
+    for i, (x, xe, y, ye) in enumerate(pts):
+        if i >= len(r.get("residual_errors", [])):
+            break
+        g = fc.ref_grad(model, params, x)
+        quad = sum(g[a] * cov[a][b] * g[b] for a in range(n) for b in range(n))
+        terms = sum(abs(g[a] * cov[a][b] * g[b]) for a in range(n) for b in range(n))
+        var = ye ** 2 + (fc.ref_slope(model, params, x) * xe) ** 2 + quad
+        allterms = ye ** 2 + (fc.ref_slope(model, params, x) * xe) ** 2 + terms
+        if var <= 1e-9 * allterms:
+            continue
+        if not close(r["residual_errors"][i], math.sqrt(var), 5e-6 * max(1.0, allterms / var)):
+            return ("uncertainty of residual {} is {!r}; y_i - fit_function(x_i) with sigma_y = {}, sigma_x = {} and the "
+                    "parameters' covariance has sqrt(sigma_y^2 + (f'(x_i) sigma_x)^2 + g^T Cov g) = {!r}"
+                    .format(i, r["residual_errors"][i], ye, xe, math.sqrt(var)))
     # evaluating again at a point whose first returned value was modified by its owner / after the result was drawn
     again = [(x, how, v, e) for x, how, v, e in zip(r["eval"], r.get("again_edit", []), r.get("again", []), r.get("again_band", []))]
     again += [(x, "the result was plotted", v, e) for x, v, e in
